@@ -5,6 +5,7 @@ TRUSTED_BASE = [
     "Spec/*.lean: the specifications the theorems are stated against (documented layout, rules of poker, Chen formula, set semantics, token grammar)",
     "translator: rustc + tools/ckc-tools extract (dumps the compiled current tree) + tools/gen_lean.py (packs the dump into Lean literals)",
     "correspondence check for the hand-written model functions: tools/ckc-tools harness (real crate, in-process) vs lean/Driver.lean (compiled model)",
+    "source translator tools/rsparse.py + tools/rs2lean.py: its reading of the Rust subset (DESIGN.md 15.1: integers as Nat with checked subtraction and unbounded + and *, panics as none, loops with fuel, core library functions given their documented meaning); the tie theorems Tie.* state that each translated function equals the model definition for all arguments",
 ]
 
 # every property is run against two builds of the crate: release (wrapping arithmetic, no debug assertions) and
